@@ -106,6 +106,7 @@ TypeOfC(e, st) ==
       [] k = "cast" -> e.t
       [] k = "assign" -> TypeOfC(e.l, st)
       [] k = "postfix" -> TypeOfC(e.a, st)
+      [] k = "prefix" -> TypeOfC(e.a, st)
       [] k = "load" -> T(e.s, e.w)
       [] k = "sizeof" -> U64
       [] k = "call" ->
@@ -249,6 +250,10 @@ EvalC(e, st) ==
             LET r == EvalC(e.a, st)
                 n == IF e.o = "++" THEN Add(r.v, One(r.t.w)) ELSE Sub(r.v, One(r.t.w))
             IN  R(r.v, r.t, StoreLv(e.a, n, r.st))
+      [] k = "prefix" ->
+            LET r == EvalC(e.a, st)
+                n == IF e.o = "++" THEN Add(r.v, One(r.t.w)) ELSE Sub(r.v, One(r.t.w))
+            IN  R(n, r.t, StoreLv(e.a, n, r.st))
       [] k = "load" ->
             LET r == EvalC(e.a, st) IN R(LoadBytes(r.st, r.v, e.w \div 8), T(e.s, e.w), r.st)
       [] k = "sizeof" -> R(FromNat(64, (TypeOfC(e.a, st).w + 7) \div 8), U64, st)
@@ -382,7 +387,8 @@ RunC(body, st) == ExecList(body, 1, st)
 TypeNames == {"int8_t", "uint8_t", "int16_t", "uint16_t", "int32_t", "uint32_t", "int64_t", "uint64_t",
               "size1s_t", "size1u_t", "size2s_t", "size2u_t", "size4s_t", "size4u_t", "size8s_t", "size8u_t",
               "int", "unsigned", "unsigned int"}
-TypeOk(t) == t.name \in TypeNames /\ t.w \in {8, 16, 32, 64} /\ "ptr" \notin DOMAIN t /\ "nonint" \notin DOMAIN t
+\* (types written by the Gen_* modules carry no spelling: they are the fixed-width types by construction)
+TypeOk(t) == ("name" \notin DOMAIN t \/ t.name \in TypeNames) /\ t.w \in {8, 16, 32, 64} /\ "ptr" \notin DOMAIN t /\ "nonint" \notin DOMAIN t
 KnownCalls(st) == BitMacros \cup DOMAIN st.csubs \cup {"REGFIELD", "get_corresponding_CS", "get_npc", "fatal", "STORE_SLOT_CANCELLED"}
 UnOpsOk == {"-", "~", "!", "+"}
 BinOpsOk == {"+", "-", "*", "/", "%", "&", "|", "^", "<<", ">>", "<", ">", "<=", ">=", "==", "!=", "&&", "||"}
@@ -410,6 +416,8 @@ ExprOk(e, st) ==
       [] k = "sizeof" -> ExprOk(e.a, st)
       [] k = "stmtexpr" -> AllStmtOk(e.body, st) /\ ExprOk(e.e, st)
       [] k = "call" -> e.f \in KnownCalls(st) /\ \A i \in 1..Len(e.args) : (e.args[i].k = "str" \/ ExprOk(e.args[i], st))
+      [] k = "comma" -> st.ext /\ ExprOk(e.a, st) /\ ExprOk(e.b, st)
+      [] k = "prefix" -> st.ext /\ e.o \in {"++", "--"} /\ IsLvalue(e.a)
       [] OTHER -> FALSE
 
 StmtOk(s, st) ==
@@ -424,7 +432,12 @@ StmtOk(s, st) ==
       [] k = "return" -> s.e.k = "none" \/ ExprOk(s.e, st)
       [] k = "store" -> s.w \in {8, 16, 32, 64} /\ ExprOk(s.a, st) /\ ExprOk(s.v, st)
       [] k = "jump" -> ExprOk(s.a, st)
+      [] k \in {"while", "do"} -> st.ext /\ ExprOk(s.c, st) /\ AllStmtOk(s.body, st)
+      [] k \in {"break", "continue"} -> st.ext
       [] OTHER -> FALSE
 
-InDialect(body, st) == AllStmtOk(body, st)
+InDialect(body, st) == AllStmtOk(body, [st EXCEPT !.ext = FALSE])
+\* constructs this module can execute although the compiler does not translate them (C15: if the compiler
+\* returns code for such a program the code must still be right; for anything else returning code is wrong)
+HasMeaning(body, st) == AllStmtOk(body, [st EXCEPT !.ext = TRUE])
 =============================================================================
